@@ -8,7 +8,13 @@ mod c13;
 #[cfg(kani)]
 mod c14;
 #[cfg(kani)]
+mod c01;
+#[cfg(kani)]
+mod c02;
+#[cfg(kani)]
 mod c03;
+#[cfg(kani)]
+mod c07;
 #[cfg(kani)]
 mod c08;
 #[cfg(kani)]
